@@ -10,9 +10,11 @@ ESCALATE_MAX = 60000      # cases drawn at most when a changed source file makes
 RULE = ("random well-formed textgrids (1-3 interval/point tiers, 0-4 entries; labels from an adversarial pool: quotes, doubled "
         "quotes, runs of quotes at either end, newlines, '=', digits, brackets, backslash, non-ASCII, astral; times: 1-6 digit "
         "decimals, integers, integers x (1 +- 10^-k) for k=9..16, integers +-1..2 ulp, k/64, powers of ten from 1e-17 to 1e15, "
-        "uniform up to 1e15; within one tier distinct times differ by >= 1e-6 so that no sliver is absorbed) x 4 formats x "
+        "uniform up to 1e15; a quarter of the textgrids reflected to NEGATIVE times - wholly below 0 with the span ending at -0.0, or on "
+        "both sides of 0; tier names with leading/trailing blanks, tabs, U+3000 and with line breaks; within one tier distinct "
+        "times differ by >= 1e-6 so that no sliver is absorbed) x 4 formats x "
         "includeBlankSpaces x includeEmptyIntervals; a separate keyword stream puts the formats' own keywords into labels and "
-        "names (known finding A10). Each case: save through a real file, open the file, compare, save the reopened textgrid and "
+        "names (known finding A10; A33: a line of a multi-line name that reads like the tier's span row). Each case: save through a real file, open the file, compare, save the reopened textgrid and "
         "compare the text; the text and the parse are also compared with the Lean emitter / parser models - for every textgrid "
         "also both JSON texts (json.dumps model) and what parseTextgridStr reads from them and from an independently written "
         "JSON document with the same content (other key order, white space, \\u escapes, numeral styles, extra/duplicate keys). "
